@@ -240,6 +240,20 @@ def run(ctx):
     ctx.ob('RNG', 'a user-seeded channelised-noise estimate is never discarded by the library (only the constructor and '
            'estimate_channelized_stds assign it), so the unseeded fallback cannot be re-triggered', PFB[:-1], not extra,
            {'writers': sorted(w), 'unexpected': extra}, node=(w[extra[0]] if extra else None), construct='.channelized_stds writers')
+    # ... and the estimate a user seeded on the filterbank handed to the backend must reach the per-stream filterbanks: they
+    # are the user's own objects or deep copies of the template, never filterbanks constructed afresh from its design
+    binit = ctx.func('voltage.backend.RawVoltageBackend.__init__')
+    rB, IB = ctx.run(binit, expand=False, max_depth=0)
+    fb_st = [e for e in IB.events if e.kind == 'store' and e.data.get('target') == 'attr' and e.data.get('name') == 'filterbank'
+             and e.data['base'].key == sym('self').key]
+    ctx.require(fb_st, 'RawVoltageBackend.__init__: the store of self.filterbank was not found')
+    for e in fb_st:
+        ats = list(T.all_atoms(e.data['value']).values())
+        fresh = [a for a in ats if a.kind == 'new' and 'PolyphaseFilterbank' in str(a.args[0])]
+        derived = any(a.kind == 'sym' and a.args[0] == 'filterbank' for a in ats)
+        ctx.ob('RNG', "the backend's per-stream filterbanks are the user's own objects or deep copies of the user's template (a seeded "
+               'channelised-noise estimate made on the template beforehand is kept)', binit, derived and not fresh,
+               {'value': pretty(e.data['value'])[:200]}, node=e.node, construct=e.text()[:80] + ' [provenance]')
     ctx.note(f'RNG: {len(rng_sites)} default_rng sites, {len(drawers)} drawing functions, {n_calls} internal calls of them')
     # (e) wall-clock time flows only into t_start's default and the stage timers
     def _time_flow_ok(fi, n, depth=0):
